@@ -23,3 +23,7 @@ pub fn str_to_chars(s: &str) -> (r: Vec<char>)
 
 pub assume_specification[ char::is_ascii_digit ](c: &char) -> (r: bool)
     ensures r == ('0' <= *c && *c <= '9');
+
+// std: U+0020 SPACE, U+0009 TAB, U+000A LF, U+000C FORM FEED, U+000D CR
+pub assume_specification[ char::is_ascii_whitespace ](c: &char) -> (r: bool)
+    ensures r == (*c == '\u{20}' || *c == '\u{9}' || *c == '\u{A}' || *c == '\u{C}' || *c == '\u{D}');
